@@ -90,7 +90,7 @@ TRUSTED = [
     'grammar guarantees and is a hypothesis of the compile_* sanity theorems',
     "C13: lean/NdnGen/C13.lean is regenerated on every run by harness/props/lvs_extract.py (live constants of the imported modules; control-flow facts as normalised source text, ast.unparse) and pinned to the model by the *_table theorems (NdnProofs/Props/C13Tables.lean, closed by evaluation): VERSION / MIN_SUPPORTED_VERSION (the bounds of versionOK and the version the compiler model stamps), binary.TypeNumber and the field lists of the binary model classes (= the layout the Lean structures follow, and token for token the LvsModel schema shipped by C08's generated table), the ordered list of (exception class, guard, message) of every raise of _sanity_check, top_order and the Compiler methods, the except tuple of _gen_pattern_numbers, the exception classes the modules define. Trusted: the extractor; a pinned TEXT (a test, a call) ties the model to the source only as far as the doc comment of the theorem reads it correctly - the behaviour itself is still tied by the correspondence run",
 ]
-RULE = ('four streams. (c) merge motifs: schemas made to share nodes - several rules over one base name pattern (identical, another '
+RULE = ('five streams. (e) STATE CARRIED BETWEEN USES IN ONE PROCESS - sessions: a generated schema (40%: plus a definition that writes one pattern, mostly a temporary one, two or three times in its name and constrains it) compiled again at once / three times / after unrelated texts / after a text that raised (one static error injected: every pass is left half-way) / after a text the grammar refuses / after a nearby text over the same identifiers; an ill-formed text compiled after the well-formed text it was made from, after a donor text that WRITES what it lacks (rule #nope, patterns nopat, _nope ...), or twice; every compilation of a session is judged on its own by the schema oracle, every compilation of the text of the case is compared with the Lean compiler + loader; in a session two Checker objects are built from ONE model object and ONE saved bytes object is loaded twice. reuse (20% of the model cases, 25% of the bytes cases): from the same bytes object a second and third Checker (another / the same user-function table), one from the model object of the first, searches abandoned at their first result, then every search on the first checker again - every load and search judged on its own and (same table) compared with the Lean loader + matcher; Checker(model) twice from one corrupted object. A session / reuse case that fails in this process is run again in a fresh interpreter and THAT observation is reported (replays are self-contained). (c) merge motifs: schemas made to share nodes - several rules over one base name pattern (identical, another '
         'named pattern or another / permuted / additional constraint at one place, continued below the shared node, or inlining one '
         'shared rule so that temporary patterns keep their number) with signers along a rule-level DAG, so that every refusal is a merged '
         'signing cycle; judged by the key criterion (acceptance demanded when no name pattern is its own signer by keys) and compared '
@@ -778,6 +778,68 @@ def _compile(schema):
     return compile_lvs(L.pp(schema))
 
 
+def session_cases(rng, schema, inj_all, n_bad):
+    """sessions (ops of lvs_common.run_session_prefix) around one generated schema: the text compiled again - at once, three
+    times, after unrelated texts, after a text that raised (one static error injected, so each pass of the compiler is left
+    half-way) or that the grammar refuses, after a nearby text over the same identifiers; and an ill-formed text compiled
+    after the text that WRITES what it lacks, after the well-formed text it was made from, or twice"""
+    main = schema
+    if rng.random() < 0.4:
+        # one more definition: a pattern written two or three times in one name, constrained
+        lits = sorted({c[1] for r in schema['rules'] for c in r['name'] if c[0] == 'lit'}) or ['a']
+        named = sorted({c[1] for r in schema['rules'] for c in r['name'] if c[0] == 'pat' and not L.is_temp(c[1])}) or ['x']
+        real = sorted({r['id'] for r in schema['rules'] if not L.is_temp(r['id'])})
+        rules = list(schema['rules']) + [L.repeated_pattern_rule(rng, lits, named, '#p1', rng.sample(real, 1) if real and rng.random() < 0.3 else [])]
+        rng.shuffle(rules)
+        main = {'rules': rules}
+
+    inj_main = inj_all if main is schema else injections(main)
+    kinds = sorted({kd for kd, _, _ in inj_main})
+
+    def bad():
+        # the text with ONE static error (kind first, then the position): its compilation is given up in another pass each
+        if not kinds or rng.random() < 0.15:
+            return ['text', L.broken_schema(rng, main), 'bad']
+        kd = rng.choice(kinds)
+        return ['text', rng.choice([x for x in inj_main if x[0] == kd])[1], 'bad']
+
+    def other():
+        return ['text', L.gen_schema(rng) if rng.random() < 0.6 else merge_schema(rng), 'other']
+
+    def raw():
+        return ['raw', rng.choice(L.RAW_TEXTS + [L.pp(main)[:-2], L.pp(main) + '<='])]
+    sib = L.sibling_schema(rng, main)
+    me = ['self']
+    r = rng.random()
+    if r < 0.20:
+        ops = [me, me]
+    elif r < 0.26:
+        ops = [me, me, me]
+    elif r < 0.36:
+        ops = [me] + [other() for _ in range(rng.choice([1, 1, 2, 3]))] + [me]
+    elif r < 0.50:
+        ops = [bad(), me]
+    elif r < 0.70:
+        ops = [me, bad(), me]
+    elif r < 0.78:
+        ops = [raw(), me] if rng.random() < 0.5 else [me, raw(), me]
+    elif sib is None:
+        ops = [me, me]
+    elif r < 0.89:
+        ops = [['text', sib, 'sibling'], me]
+    else:
+        ops = [me, ['text', sib, 'sibling'], me]
+    yield {'kind': 'schema', 'schema': main, 'inject': None, 'session': ops}
+    kinds = sorted({kd for kd, _, _ in inj_all})
+    for _ in range(n_bad if kinds else 0):
+        kd = rng.choice(kinds)
+        _, s, _ = rng.choice([x for x in inj_all if x[0] == kd])
+        r = rng.random()
+        donor, orig = ['text', L.donor_schema(s), 'donor'], ['text', schema, 'orig']
+        ops = [orig, me] if r < 0.35 else [donor, me] if r < 0.65 else [me, orig, me] if r < 0.75 else [me, donor, me] if r < 0.85 else [me, me]
+        yield {'kind': 'schema', 'schema': s, 'inject': kd, 'session': ops}
+
+
 def extract(repo):
     """lean/NdnGen/C13.lean: tables read from the Light VerSec sources (harness/props/lvs_extract.py)"""
     return lvs_extract.generate_c13(repo)
@@ -796,11 +858,13 @@ def cases(rng, tier):
     yield {'kind': 'schema', 'schema': PREFIX_MERGED, 'inject': None, 'corpus': 'prefix-merged'}
     for w in ('', '610400011000', '6104000110', '6104000110002501006901006303250100', '61040001100025010063032501006300'):
         yield {'kind': 'bytes', 'wire': w, 'how': 'corpus', 'names': [[]], 'fns': L.FN_NAMES}
+    n_done = 0
     for _ in range(n_sch):
         schema = L.gen_schema(rng)
         spec = L.Spec(schema, fns)
         yield {'kind': 'schema', 'schema': schema, 'inject': None}
         inj = injections(schema)
+        inj_all = list(inj)
         if per_inj is not None:
             # one of each kind first, then random positions
             rng.shuffle(inj)
@@ -820,6 +884,10 @@ def cases(rng, tier):
         early_defs = set(redefined_targets(schema))
         for kd, s, i in inj:
             yield {'kind': 'schema', 'schema': s, 'inject': kd, 'early_def': i in early_defs}
+        # (e) sessions: what one compilation leaves behind in the process must not reach the next one
+        for _ in range(1 if tier == 'quick' else 4):
+            yield from session_cases(rng, schema, inj_all, n_done % 2 if tier == 'quick' else 2)
+        n_done += 1
         if spec.static_errors():
             continue
         try:
@@ -859,7 +927,11 @@ def cases(rng, tier):
             muts += [mu for mu in shape if mu not in muts]
         names = L.gen_names(rng, schema, spec, 5 if tier == 'quick' else 8)
         for mu in muts:
-            yield {'kind': 'model', 'schema': schema, 'mut': mu, 'names': names, 'fns': rng.choice([L.FN_NAMES, L.FN_NAMES, ['$eq']])}
+            case = {'kind': 'model', 'schema': schema, 'mut': mu, 'names': names, 'fns': rng.choice([L.FN_NAMES, L.FN_NAMES, ['$eq']])}
+            if rng.random() < 0.2:
+                # further Checker objects from the same bytes object / model object, under this user-function table
+                case['reuse'] = rng.choice([L.FN_NAMES, ['$eq'], []])
+            yield case
 
 
     # more well-formed schemas (compile + loader only: cheap) for the positive clause
@@ -869,6 +941,11 @@ def cases(rng, tier):
     # signers among them: the exact criterion for a merged signing cycle
     for _ in range(90 if tier == 'quick' else 600):
         yield {'kind': 'schema', 'schema': merge_schema(rng), 'inject': None, 'merge': True}
+    for _ in range(8 if tier == 'quick' else 80):
+        ms = merge_schema(rng)
+        sib = L.sibling_schema(rng, ms)
+        ops = [['self'], ['self']] if sib is None or rng.random() < 0.5 else [['self'], ['text', sib, 'sibling'], ['self']]
+        yield {'kind': 'schema', 'schema': ms, 'inject': None, 'merge': True, 'session': ops}
     # Checker.load on byte strings: an encoded model damaged below the level of elements, spliced, reordered; element soup
     for _ in range(12 if tier == 'quick' else 60):
         schema = L.gen_schema(rng)
@@ -880,10 +957,20 @@ def cases(rng, tier):
             continue
         names = L.gen_names(rng, schema, L.Spec(schema, fns), 3)
         for kd, w in byte_mutations(rng, wire, 14 if tier == 'quick' else 40):
-            yield {'kind': 'bytes', 'wire': w.hex(), 'how': kd, 'names': names, 'fns': L.FN_NAMES}
+            case = {'kind': 'bytes', 'wire': w.hex(), 'how': kd, 'names': names, 'fns': L.FN_NAMES}
+            if rng.random() < 0.25:
+                case['reuse'] = rng.choice([L.FN_NAMES, ['$eq'], []])
+            yield case
 
 
 def shrink(case):
+    for c in _shrink(case):
+        if c.get('session') or c.get('reuse') is not None:
+            c = dict(c, shrunk=True)
+        yield c
+
+
+def _shrink(case):
     if case['kind'] == 'bytes':
         w = bytes.fromhex(case['wire'])
         offs = wire_elements_safe(w)
@@ -892,6 +979,13 @@ def shrink(case):
         if len(case['names']) > 1:
             yield dict(case, names=case['names'][:1])
         return
+    # (a session / reuse case stays one: the shrinker evaluates candidates in THIS process, where a plain case could fail
+    # only because of what was compiled before it - its replay would not reproduce; see _isolated)
+    ops = case.get('session')
+    if ops:
+        for i in range(len(ops)):
+            if len(ops) > 1:
+                yield dict(case, session=ops[:i] + ops[i + 1:])
     for s in L.shrink_schema(case['schema']):
         if case['kind'] == 'schema':
             yield dict(case, schema=s)
@@ -906,44 +1000,158 @@ def shrink(case):
 _last_compiled = []
 
 
+def _spec_info(schema, fns):
+    """what the statement says about a schema text (the Spec never looks at the library)"""
+    spec = L.Spec(schema, fns)
+    try:
+        errs = spec.static_errors()
+        may_self = False if errs else spec.may_self_sign()
+    except RecursionError:
+        errs, may_self = ['ref-cycle'], False
+    try:
+        key_self = False if errs else key_self_sign(spec)
+    except RecursionError:
+        key_self = True
+    return {'static_errors': errs, 'may_self_sign': may_self, 'key_self_sign': key_self, 'temp_free': temp_free(schema)}
+
+
+def _compile_round(schema, fns, twice=False):
+    """one compilation of a schema text, a Checker from the result, save / load. twice (sessions): a second Checker from
+    the SAME model object and a second load of the SAME bytes object as well"""
+    Component, Name, compile_lvs, Checker, SemanticError, LvsModelError, DFN, bny = L.mods()
+    rd = {'token': None}
+    try:
+        model = compile_lvs(L.pp(schema))
+    except Exception as e:          # noqa
+        rd['compile'] = type(e).__name__
+        return rd
+    rd['compile'] = 'ok'
+    rd['token'] = L.enc_model(model)
+    rd['symbols'] = L.enc_symbols(model)
+    ck = None
+    for key in ('checker', 'checker_again') if twice else ('checker',):
+        try:
+            c = Checker(model, fns)
+            rd[key] = 'ok'
+            ck = ck or c
+        except Exception as e:          # noqa
+            rd[key] = type(e).__name__
+    if rd['checker'] != 'ok':
+        return rd
+    try:
+        wire = ck.save()
+    except Exception as e:              # noqa
+        rd['reload'] = type(e).__name__
+        return rd
+    for key in ('reload', 'reload_again') if twice else ('reload',):
+        try:
+            ck2 = Checker.load(wire, fns)
+            rd[key] = 'ok' if L.enc_model(ck2.model) == rd['token'] else 'model-differs-after-save-load'
+        except Exception as e:          # noqa
+            rd[key] = type(e).__name__
+    return rd
+
+
+def _query(ck, names):
+    ms = []
+    for nb in names:
+        outs, exc = L.impl_match(ck, nb)
+        ms.append([outs, exc])
+    return {'load': 'ok', 'matches': ms, 'checks': [L.impl_check(ck, p, k) for p in names for k in names]}
+
+
+def _use(build, names, exc_name, nocnt=False):
+    """build a Checker and put every name / every pair to it: (observation, checker or None)"""
+    try:
+        ck = build()
+    except Exception as e:              # noqa
+        return {'load': exc_name(e)}, None
+    if nocnt and ck.model.named_pattern_cnt is None:
+        return {'load': 'ok-nocnt'}, None
+    L.cap_steps(ck)
+    return _query(ck, names), ck
+
+
+def _reuse(case, wire, fns, first, ck, names, exc_name, nocnt=False):
+    """the case's `reuse` flag (a user-function table): state carried between Checker objects and between searches.
+    From the SAME bytes object a checker under the other table and - after it, and after searches that were abandoned at the
+    first result - one under the case's table; a checker under the other table from the model object of the first one; then
+    every search on the FIRST checker once more (after the exceptions, early returns and abandoned searches before).
+    Returns (rounds under the case's table - each compared with the model -, observations under the other table)"""
+    Component, Name, compile_lvs, Checker, SemanticError, LvsModelError, DFN, bny = L.mods()
+    fns2 = L.user_fns(case['reuse'])
+    rounds, others = [first], []
+    others.append(_use(lambda: Checker.load(wire, fns2), names, exc_name, nocnt)[0])
+    if ck is not None:
+        others.append(_use(lambda: Checker(ck.model, fns2), names, exc_name, nocnt)[0])
+        for nb in names:
+            try:
+                next(iter(ck.match(list(nb))), None)
+            except Exception:           # noqa
+                pass
+    rounds.append(_use(lambda: Checker.load(wire, fns), names, exc_name, nocnt)[0])
+    if ck is not None:
+        rounds.append(_query(ck, names))
+    return rounds, others
+
+
+def _isolated(case):
+    """the observation of a session / reuse case made in a FRESH process.  The check runs every case in one process, so a
+    failure seen there may be due to what earlier cases left behind; a case that fails in-process is run again on its own
+    and that observation is the one reported (so a replay reproduces, and the shrinker - which evaluates its candidates in
+    this process - keeps only what the case itself needs)"""
+    import os, subprocess, sys
+    here = os.path.dirname(os.path.dirname(os.path.abspath(__file__)))
+    code = ('import sys, json; sys.path.insert(0, %r); import lib; lib.setup_repo_path(); from props import c13; '
+            'print("\\n@@" + json.dumps(c13.run_impl(json.loads(sys.stdin.read()))))' % here)
+    try:
+        p = subprocess.run([sys.executable, '-c', code], input=json.dumps(case), capture_output=True, text=True, timeout=600,
+                           env=dict(os.environ, C13_ISOLATED='1'))
+        line = [ln for ln in p.stdout.split('\n') if ln.startswith('@@')]
+        return json.loads(line[-1][2:]) if line else None
+    except Exception:           # noqa
+        return None
+
+
+_isolations = [0]
+
+
 def run_impl(case):
+    import os
+    res = _run_impl(case)
+    if (case.get('session') or case.get('reuse') is not None) and not os.environ.get('C13_ISOLATED'):
+        if oracle(case, res):
+            # of the generated cases at most 40 failing ones are run again on their own (a tree on which hundreds fail needs
+            # no more); a candidate of the shrinker (marked by shrink()) always is
+            if not case.get('shrunk'):
+                _isolations[0] += 1
+                if _isolations[0] > 40:
+                    return res
+            iso = _isolated(case)
+            if iso is not None:
+                iso['isolated'] = True
+                return iso
+    return res
+
+
+def _run_impl(case):
     Component, Name, compile_lvs, Checker, SemanticError, LvsModelError, DFN, bny = L.mods()
     fns = L.user_fns(case.get('fns', L.FN_NAMES))
     if case['kind'] == 'bytes':
         return run_bytes(case, fns)
     schema = case['schema']
     if case['kind'] == 'schema':
-        spec = L.Spec(schema, fns)
-        try:
-            errs = spec.static_errors()
-            may_self = False if errs else spec.may_self_sign()
-        except RecursionError:
-            errs, may_self = ['ref-cycle'], False
-        try:
-            key_self = False if errs else key_self_sign(spec)
-        except RecursionError:
-            key_self = True
-        res = {'static_errors': errs, 'may_self_sign': may_self, 'key_self_sign': key_self, 'temp_free': temp_free(schema),
-               'token': None}
-        try:
-            model = compile_lvs(L.pp(schema))
-        except Exception as e:          # noqa
-            res['compile'] = type(e).__name__
+        res = _spec_info(schema, fns)
+        ops = case.get('session')
+        if not ops:
+            res.update(_compile_round(schema, fns))
             return res
-        res['compile'] = 'ok'
-        res['token'] = L.enc_model(model)
-        res['symbols'] = L.enc_symbols(model)
-        try:
-            ck = Checker(model, fns)
-            res['checker'] = 'ok'
-        except Exception as e:          # noqa
-            res['checker'] = type(e).__name__
-            return res
-        try:
-            ck2 = Checker.load(ck.save(), fns)
-            res['reload'] = 'ok' if L.enc_model(ck2.model) == res['token'] else 'model-differs-after-save-load'
-        except Exception as e:          # noqa
-            res['reload'] = type(e).__name__
+        # a session: every compilation of it is judged on its own (this text: 'rounds'; the other texts: 'others')
+        rounds, others, raws = L.run_session_prefix(ops, schema, lambda s: _compile_round(s, fns, True), compile_lvs)
+        res.update(rounds[0] if rounds else {'token': None, 'compile': 'not-compiled'})
+        res['rounds'] = rounds
+        res['others'] = [[label, dict(_spec_info(s, fns), **rd)] for label, s, rd in others]
+        res['raws'] = raws
         return res
     # model-level (the compiled model of one schema is corrupted many times: building the lark parser dominates, so the
     # last compilation is kept; apply_mutation works on a deep copy)
@@ -965,27 +1173,22 @@ def run_impl(case):
     seen = doc_read(wire)
     res['reader'] = 'doc' if seen is not None else 'lib'
     res['broken'] = doc_rules_broken(seen if seen is not None else parsed, bny)
+    reuse = case.get('reuse') is not None
     if case['mut'][0] != 'wire':
         # the other entry point: the corrupted object itself, Checker(model, fns)
         res['broken_mem'] = doc_rules_broken(mutated, bny)
-        try:
-            Checker(copy.deepcopy(mutated), fns)
-            res['direct'] = 'ok'
-        except Exception as e:          # noqa
-            res['direct'] = type(e).__name__
-    try:
-        ck = Checker.load(wire, fns)
-    except Exception as e:              # noqa
-        res['load'] = type(e).__name__
-        return res
-    res['load'] = 'ok'
-    L.cap_steps(ck)
+        obj = copy.deepcopy(mutated)
+        for key in ('direct', 'direct_again') if reuse else ('direct',):        # reuse: two checkers from ONE model object
+            try:
+                Checker(obj, fns)
+                res[key] = 'ok'
+            except Exception as e:          # noqa
+                res[key] = type(e).__name__
     names = [L.name_bytes(nm) for nm in case['names']]
-    res['matches'] = []
-    for nb in names:
-        outs, exc = L.impl_match(ck, nb)
-        res['matches'].append([outs, exc])
-    res['checks'] = [L.impl_check(ck, p, k) for p in names for k in names]
+    first, ck = _use(lambda: Checker.load(wire, fns), names, lambda e: type(e).__name__)
+    res.update(first)
+    if reuse:
+        res['rounds'], res['others'] = _reuse(case, wire, fns, first, ck, names, lambda e: type(e).__name__)
     return res
 
 
@@ -998,28 +1201,24 @@ def run_bytes(case, fns):
     res = {'bytes': True, 'reader': 'doc' if seen is not None else 'none',
            'broken': doc_rules_broken(seen, bny) if seen is not None else None,
            'has_start': seen is not None and seen.start_id is not None}
-    try:
-        ck = Checker.load(wire, fns)
-    except Exception as e:              # noqa
-        res['load'] = pktcommon.exc_name(e)
-        return res
-    if ck.model.named_pattern_cnt is None:
-        res['load'] = 'ok-nocnt'
-        return res
-    res['load'] = 'ok'
-    L.cap_steps(ck)
     names = [L.name_bytes(nm) for nm in case['names']]
-    res['matches'] = []
-    for nb in names:
-        outs, exc = L.impl_match(ck, nb)
-        res['matches'].append([outs, exc])
-    res['checks'] = [L.impl_check(ck, p, k) for p in names for k in names]
+    first, ck = _use(lambda: Checker.load(wire, fns), names, pktcommon.exc_name, True)
+    res.update(first)
+    if ck is not None:
+        # damaged bytes may spell a rule name with a character the line protocol of the driver uses as a separator
+        # (the answer cannot be read back then): such a case is judged by the oracle only
+        ids = [r for nd in ck.model.nodes for r in (nd.rule_name or [])]
+        res['proto_unsafe'] = any(not (ch.isalnum() or ch in '#_$-') for r in ids for ch in r)
+    if case.get('reuse') is not None:
+        res['rounds'], res['others'] = _reuse(case, wire, fns, first, ck, names, pktcommon.exc_name, True)
     return res
 
 
 # ------------------------------------------------------------------------------------------ model
 def model_line(case, impl):
     if case['kind'] == 'bytes':
+        if impl.get('proto_unsafe'):
+            return None
         names = [L.name_bytes(nm) for nm in case['names']]
         return 'C13 loadbytes %s %s %s' % (case['wire'] or '-', L.enc_env(case.get('fns', L.FN_NAMES)),
                                           '/'.join(L.enc_name(n) for n in names))
@@ -1042,83 +1241,160 @@ def _canon_model_match(r):
     return [[[o[0], o[2]] for o in pm['outs']], pm['err']]
 
 
+def _schema_pair(parts, rd):
+    """(model observation, implementation observation) of ONE compilation; pools equal only up to numbering are
+    compared in canonical form"""
+    if rd['compile'] != 'ok':
+        io = {'compile': rd['compile']}
+        exact = True
+    else:
+        exact = parts[0] == 'ok' and parts[1] == rd['token'] and parts[2] == rd['symbols']
+        ck = rd.get('checker')
+        io = {'compile': 'ok', 'node_pool': rd['token'] if exact else L.canon_pool(rd['token'], rd['symbols']),
+              'checker': ck if rd.get('checker_again', ck) == ck else [ck, rd['checker_again']]}
+    if parts[0] == 'cerr':
+        return {'compile': parts[1]}, io
+    return {'compile': 'ok', 'node_pool': parts[1] if exact else L.canon_pool(parts[1], parts[2]), 'checker': parts[3]}, io
+
+
+def _load_obs(rd):
+    if rd['load'] != 'ok':
+        return {'load': rd['load']}
+    return {'load': 'ok', 'matches': rd['matches'], 'checks': rd['checks']}
+
+
 def model_obs(answer, case, impl):
+    """the model's answer; of the rounds of a session / of a reuse case the first one that differs from it is the
+    implementation's observation (impl['_io'], read by impl_obs - lib.py calls model_obs first): every round is compared"""
     parts = answer.split(' ')
     if case['kind'] == 'schema':
-        if parts[0] == 'cerr':
-            return {'compile': parts[1]}
-        assert parts[0] == 'ok' and len(parts) == 5, answer[:100]
-        parts = parts[:3] + parts[4:]       # parts[3] is the merge-key flag, which C11 checks
-        exact = parts[1] == impl['token'] and parts[2] == impl['symbols']
-        impl['_exact'] = exact              # pools equal only up to numbering are compared in canonical form
-        return {'compile': 'ok', 'node_pool': parts[1] if exact else L.canon_pool(parts[1], parts[2]), 'checker': parts[3]}
+        if parts[0] != 'cerr':
+            assert parts[0] == 'ok' and len(parts) == 5, answer[:100]
+            parts = parts[:3] + parts[4:]       # parts[3] is the merge-key flag, which C11 checks
+        pairs = [_schema_pair(parts, rd) for rd in (impl.get('rounds') or [impl])]
+        mo, impl['_io'] = next(((m, i) for m, i in pairs if m != i), pairs[0])
+        return mo
     assert answer.startswith('ok'), answer[:100]
     if parts[1] == 'accepted-nocnt':
-        return {'load': 'ok-nocnt'}
-    if parts[1] != 'accepted':
-        return {'load': parts[1]}
-    ms = [_canon_model_match(r) for r in parts[2].split('/')]
-    cs = [True if c == '1' else False if c == '0' else c for c in parts[3].split(',')]
-    return {'load': 'ok', 'matches': ms, 'checks': cs}
+        mo = {'load': 'ok-nocnt'}
+    elif parts[1] != 'accepted':
+        mo = {'load': parts[1]}
+    else:
+        ms = [_canon_model_match(r) for r in parts[2].split('/')]
+        cs = [True if c == '1' else False if c == '0' else c for c in parts[3].split(',')]
+        mo = {'load': 'ok', 'matches': ms, 'checks': cs}
+    obs = [_load_obs(rd) for rd in (impl.get('rounds') or [impl])]
+    impl['_io'] = next((o for o in obs if o != mo), obs[0])
+    return mo
 
 
 def impl_obs(impl):
+    if '_io' in impl:
+        return impl['_io']
     if 'compile' in impl:
         if impl['compile'] != 'ok':
             return {'compile': impl['compile']}
-        exact = impl.get('_exact', True)
-        return {'compile': 'ok', 'node_pool': impl['token'] if exact else L.canon_pool(impl['token'], impl['symbols']),
-                'checker': impl.get('checker')}
-    if impl['load'] != 'ok':
-        return {'load': impl['load']}
-    return {'load': 'ok', 'matches': impl['matches'], 'checks': impl['checks']}
+        return {'compile': 'ok', 'node_pool': impl['token'], 'checker': impl.get('checker')}
+    return _load_obs(impl)
 
 
 # ----------------------------------------------------------------------------------------- oracle
-def oracle(case, impl):
-    if case['kind'] == 'schema':
-        outcome = impl['compile'] if impl['compile'] != 'ok' else impl.get('checker')
-        if impl['static_errors']:
+def _judge_schema(info, rd):
+    """one compilation (and the checkers built from its result) against what the statement says about the text"""
+    if rd['compile'] != 'ok':
+        outcomes = [(rd['compile'], rd.get('checker'), '')]
+    else:
+        outcomes = [(rd.get('checker'), rd.get('checker'), '')]
+        if 'checker_again' in rd:
+            outcomes.append((rd['checker_again'], rd['checker_again'], ' by the second Checker built from one model object'))
+    if info['static_errors']:
+        for outcome, shown, which in outcomes:
             if outcome != 'SemanticError':
-                return (f"schema with static error {impl['static_errors']} is not rejected with SemanticError "
-                        f"(compile={impl['compile']}, checker={impl.get('checker')})")
-            return None
-        # "no name pattern is, directly or transitively, its own signer": name patterns told apart by their keys
-        # (compile_sane_keys; the shape criterion may_self_sign is coarser and only reported in the tags)
-        if impl.get('key_self_sign', impl['may_self_sign']):
-            return None
+                return (f"schema with static error {info['static_errors']} is not rejected with SemanticError "
+                        f"(compile={rd['compile']}, checker={shown})" + which)
+        return None
+    # "no name pattern is, directly or transitively, its own signer": name patterns told apart by their keys
+    # (compile_sane_keys; the shape criterion may_self_sign is coarser and only reported in the tags)
+    if info.get('key_self_sign', info['may_self_sign']):
+        return None
+    for outcome, shown, which in outcomes:
         if outcome != 'ok':
-            return f'well-formed schema without self-signing is rejected: compile={impl["compile"]} checker={impl.get("checker")}'
-        if impl.get('reload') != 'ok':
-            return f'model of a well-formed schema does not survive save/load: {impl.get("reload")}'
-        return None
-    if impl['load'].startswith('unencodable'):
-        return None
+            return f'well-formed schema without self-signing is rejected: compile={rd["compile"]} checker={shown}' + which
+    for key in ('reload', 'reload_again'):
+        if (key == 'reload' or key in rd) and rd.get(key) != 'ok':
+            return (f'model of a well-formed schema does not survive save/load: {rd.get(key)}' +
+                    (' at the second load of one bytes object' if key != 'reload' else ''))
+    return None
+
+
+def _schema_failure(case, impl):
+    """(why, info, round) of the first compilation of the case that fails the statement, or None"""
+    if not case.get('session'):
+        why = _judge_schema(impl, impl)
+        return (why, impl, impl) if why else None
+    shape = L.session_shape(case['session'])
+    for k, rd in enumerate(impl['rounds']):
+        why = _judge_schema(impl, rd)
+        if why:
+            return f'{why} [compilation {k + 1} of this text in one process; session: {shape}]', impl, rd
+    for label, o in impl['others']:
+        why = _judge_schema(o, o)
+        if why:
+            return f'{why} [the text compiled as "{label}" in session: {shape}]', o, o
+    return None
+
+
+def _judge_load(impl, rd):
+    """one Checker built from the bytes (and the searches on it) against the documented rules"""
     if impl.get('bytes'):
         # bytes that do not read as the documented layout: whatever leaves Checker.load must be a documented decoding
         # error or one of the two documented error classes (TypeError only for bytes without StartId)
         allowed = {'ok', 'ok-nocnt', 'LvsModelError', 'SemanticError', 'DecodeError', 'IndexError', 'ValueError', 'struct.error'}
-        if impl['load'] == 'TypeError' and impl['has_start']:
+        if rd['load'] == 'TypeError' and impl['has_start']:
             return 'Checker.load raises TypeError on bytes that carry a StartId'
-        if impl['load'] not in allowed | {'TypeError'}:
-            return f"Checker.load raises {impl['load']}: neither a decoding error nor a documented model error"
-        if impl['load'] in ('DecodeError', 'IndexError', 'ValueError', 'struct.error'):
+        if rd['load'] not in allowed | {'TypeError'}:
+            return f"Checker.load raises {rd['load']}: neither a decoding error nor a documented model error"
+        if rd['load'] in ('DecodeError', 'IndexError', 'ValueError', 'struct.error'):
             return None         # the bytes do not decode (e.g. an identifier that is not UTF-8): there is no model to judge
-    if impl['broken'] and impl['load'] != 'LvsModelError':
-        return f"model breaking the documented sanity rule '{impl['broken']}' is not rejected with LvsModelError (load={impl['load']})"
-    if impl.get('broken_mem') and impl.get('direct') != 'LvsModelError':
-        return (f"in-memory model breaking the documented sanity rule '{impl['broken_mem']}' is not rejected with LvsModelError "
-                f"by Checker(model, fns) ({impl.get('direct')})")
-    if impl['load'] == 'ok':
-        if any(m[1] == 'NONTERMINATION' for m in impl['matches']):
+    if impl['broken'] and rd['load'] != 'LvsModelError':
+        return f"model breaking the documented sanity rule '{impl['broken']}' is not rejected with LvsModelError (load={rd['load']})"
+    if rd['load'] == 'ok':
+        if any(m[1] == 'NONTERMINATION' for m in rd['matches']):
             return 'match does not terminate on an accepted model'
-        if any(c == 'NONTERMINATION' for c in impl['checks']):
+        if any(c == 'NONTERMINATION' for c in rd['checks']):
             return 'check does not terminate on an accepted model'
     return None
 
 
+def oracle(case, impl):
+    if case['kind'] == 'schema':
+        f = _schema_failure(case, impl)
+        return f[0] if f else None
+    if impl['load'].startswith('unencodable'):
+        return None
+    why = _judge_load(impl, impl)
+    if why:
+        return why
+    for key in ('direct', 'direct_again'):
+        if impl.get('broken_mem') and key in impl and impl[key] != 'LvsModelError':
+            return (f"in-memory model breaking the documented sanity rule '{impl['broken_mem']}' is not rejected with LvsModelError "
+                    f"by Checker(model, fns) ({impl[key]})" + (' - the second Checker built from one model object' if key != 'direct' else ''))
+    # reuse: every further Checker object (same bytes object, same model object; the same or another user-function table)
+    # and every repeated search is judged on its own
+    for k, rd in enumerate((impl.get('rounds') or [])[1:]):
+        why = _judge_load(impl, rd)
+        if why:
+            return why + ' [%s]' % ('a second Checker loaded from the same bytes object' if k == 0 else 'the first Checker asked again')
+    for rd in impl.get('others') or []:
+        why = _judge_load(impl, rd)
+        if why:
+            return why + ' [a further Checker from the same bytes / model object under another user-function table]'
+    return None
+
+
 def nontrivial(case, impl):
-    return case['kind'] in ('model', 'bytes') or case.get('inject') is not None or bool(case.get('merge'))
+    return (case['kind'] in ('model', 'bytes') or case.get('inject') is not None or bool(case.get('merge'))
+            or bool(case.get('session')))
 
 
 def tags(case, impl):
@@ -1136,14 +1412,27 @@ def tags(case, impl):
                      (':temp-free' if impl.get('temp_free') else ':temporaries'))
         if case.get('corpus'):
             t.append('corpus:%s:%s' % (case['corpus'], impl['compile'] if impl['compile'] != 'ok' else impl.get('checker', '?')))
+        if case.get('session'):
+            t.append('session:' + L.session_shape(case['session']) + ('(ill-formed text)' if case.get('inject') else ''))
+            t.append('session-compilations:%d' % (len(impl['rounds']) + len(impl['others'])))
+            for label, o in impl['others']:
+                t.append('session-other:%s:%s' % (label, o['compile'] if o['compile'] != 'ok' else o.get('checker', '?')))
+            for r in impl['raws']:
+                t.append('session-raw:' + r)
+            for r in case['schema']['rules']:
+                tp = [c[1] for c in r['name'] if c[0] == 'pat']
+                if any(tp.count(x) > 1 and any(tm['pat'] == x for cs in r['cons'] for tm in cs) for x in set(tp)):
+                    t.append('session:constrained-pattern-written-twice-in-one-name' + ('(temporary)' if any(L.is_temp(x) and tp.count(x) > 1 for x in tp) else ''))
+                    break
         return t
+    reuse = ['reuse:checkers=%d' % (len(impl.get('rounds') or []) + len(impl.get('others') or []))] if case.get('reuse') is not None and 'rounds' in impl else []
     if case['kind'] == 'bytes':
         t = ['bytes:' + case.get('how', '?'), 'bytes-load:' + impl['load'], 'rules-read-by:' + str(impl.get('reader'))]
         if impl.get('broken'):
             t.append('breaks:' + impl['broken'])
-        return t
+        return t + reuse
     mu = case['mut']
-    t = ['mut:' + mut_kind(mu), 'load:' + impl['load'], 'rules-read-by:' + str(impl.get('reader'))]
+    t = ['mut:' + mut_kind(mu), 'load:' + impl['load'], 'rules-read-by:' + str(impl.get('reader'))] + reuse
     if 'direct' in impl:
         t.append('direct:' + impl['direct'])
     if impl.get('broken'):
@@ -1158,18 +1447,23 @@ def tags(case, impl):
 
 def finding_key(case, impl, why):
     if case['kind'] == 'schema':
+        f = _schema_failure(case, impl)
+        info, rd = (f[1], f[2]) if f else (impl, impl)
+        tail = '-in-session' if case.get('session') else ''
         if 'well-formed schema' in why:
-            return 'wellformed-schema-rejected-' + str(impl.get('compile')) + '-' + str(impl.get('checker'))
+            m = why.split('checker=')[1].split(' ')[0] if 'checker=' in why else str(rd.get('checker'))
+            return 'wellformed-schema-rejected-' + str(rd.get('compile')) + '-' + m + tail
         if 'save/load' in why:
-            return 'save-load-differs'
-        return 'static-error-not-rejected-' + '-'.join(impl['static_errors'])
+            return 'save-load-differs' + tail
+        return 'static-error-not-rejected-' + '-'.join(info['static_errors']) + tail
+    tail = '-on-reuse' if why.endswith(']') else ''
     if 'terminate' in why:
-        return 'accepted-model-nontermination'
+        return 'accepted-model-nontermination' + tail
     if 'Checker.load raises' in why:
-        return 'load-raises-undocumented-' + str(impl.get('load'))
+        return 'load-raises-undocumented-' + str(impl.get('load')) + tail
     if 'in-memory' in why:
         return 'broken-rule-accepted-in-memory-' + str(impl.get('broken_mem')) + '-' + str(impl.get('direct'))
-    return 'broken-rule-accepted-' + str(impl.get('broken')) + '-' + str(impl.get('load'))
+    return 'broken-rule-accepted-' + str(impl.get('broken')) + '-' + str(impl.get('load')) + tail
 
 
 LEVEL_TEXT = ('Lean 4 theorems over a hand-written model of Checker._sanity_check and Checker._match: the loader\'s structural '
